@@ -27,7 +27,10 @@ META = {
             "library: estimate=16907, max=16906, witness corpus/C12/canfit_prefix_256.txt); C12_generated_applies - on "
             "the add-temp-block machine every kept payload was executed in the final order, so a block body carrying "
             "exactly the generated list executes completely on the same tip state and reaches the state the temporary "
-            "block had; C12_generate_pure - add temporary block / execute / un-execute in reverse / remove returns to "
+            "block had; C12_generated_applies_ordered - the same with the application order explicit (filter order "
+            "context, VTBs, ATVs = execution order of a block body), and C12_generated_applies_other_order_refuted - a "
+            "filter applying ATVs before VTBs keeps a VTB whose containing block is known only as an ATV's block of "
+            "proof, and the body fails; C12_generate_pure - add temporary block / execute / un-execute in reverse / remove returns to "
             "the initial state given the inverse laws. Tie to the code: direct oracle on the real generatePopData after "
             "generated histories under small and default limits (counts, estimateSize = encoded size <= limit, "
             "stateless checkPopData, nothing already on the active chain, all three trees identical before/after) and "
